@@ -345,8 +345,7 @@ package boltz
 //@ view curPos[*ForwardBoltCursor] = bcPos[self.cursor]
 //@ typeinv ForwardBoltCursor: self.cursor != nil && 0 <= bcLen[self.cursor] && bcLen[self.cursor] < MaxInt64 && 0 <= bcPos[self.cursor] && bcPos[self.cursor] <= bcLen[self.cursor] && (self.key != nil) == (bcPos[self.cursor] < bcLen[self.cursor]) && (self.key != nil ==> str(self.key) == bcKeys[self.cursor][bcPos[self.cursor]])
 
-//@ func (SetCursor).IsValid
-//@   impl ForwardBoltCursor
+//@ implcheck C14 ast.SetCursor *ForwardBoltCursor
 //@ func NewForwardBoltCursor
 //@   props C14
 //@   requires cursor != nil && 0 <= bcLen[cursor] && bcLen[cursor] < MaxInt64
